@@ -20,6 +20,11 @@ TOK = {
     "cmt_mb2_0": "// " + "\u00e9" * 12 + "\n", "cmt_mb2_1": "// a" + "\u00e9" * 12 + "\n",
     "cmt_mb3_0": "// " + "\u4e16" * 9 + "\n", "cmt_mb3_1": "// a" + "\u4e16" * 9 + "\n", "cmt_mb3_2": "// ab" + "\u4e16" * 9 + "\n",
     "cmt_mb4_0": "/* " + "\U0001F980" * 7 + " */\n", "cmt_mb4_1": "/* a" + "\U0001F980" * 7 + " */\n",
+    # deep unclosed nesting (backtracking grammar rules) and long lines with multi-byte text at every alignment
+    "deep_paren": "f(" * 40, "deep_mixed": "({[" * 16, "deep_kv": "info!(k = g(" + "(" * 40,
+    "stmt_long_mb2_0": 'warn!("' + "\u00e9" * 60 + '");', "stmt_long_mb2_1": 'warn!("a' + "\u00e9" * 60 + '");',
+    "stmt_long_mb3_0": 'error!("' + "\u4e16" * 40 + '");', "stmt_long_mb3_1": 'error!("a' + "\u4e16" * 40 + '");',
+    "stmt_long_mb3_2": 'error!("ab' + "\u4e16" * 40 + '");',
     "cmt_mb4_2": "/* ab" + "\U0001F980" * 7 + " */\n", "cmt_mb4_3": "/* abc" + "\U0001F980" * 7 + " */\n",
 }
 
